@@ -33,6 +33,15 @@ inductive F
   | flSde | flRlc | flRlcSize
   | ilBuf
   | nw | nwSnd | nwRcv
+  -- second wave: list sections, strings, ports, groups
+  | upSrv | upFbSrv | upHcTmpl
+  | ql | qlFile
+  | ckLoc | ckName
+  | fg | fg0Par | fg0Rl | fg0Sb
+  | sg | sgDdr | sgSrvs | sgTls
+  | ddrDev | ddrDevHttps | ddrPub | ddrPubHttps
+  | cc | ac
+  | ilList | ilPort0 | ilPort1
   deriving DecidableEq, Repr
 
 def F.name : F → String
@@ -76,14 +85,31 @@ def F.name : F → String
   | .flSde => "filters.sde_enabled" | .flRlc => "filters.rule_list_cache" | .flRlcSize => "filters.rule_list_cache.size"
   | .ilBuf => "interface_listeners.channel_buffer_size"
   | .nw => "network" | .nwSnd => "network.so_sndbuf" | .nwRcv => "network.so_rcvbuf"
+  | .upSrv => "upstream.servers" | .upFbSrv => "upstream.fallback.servers"
+  | .upHcTmpl => "upstream.healthcheck.domain_template"
+  | .ql => "query_log" | .qlFile => "query_log.file"
+  | .ckLoc => "check.node_location" | .ckName => "check.node_name"
+  | .fg => "filtering_groups" | .fg0Par => "filtering_groups.0.parental"
+  | .fg0Rl => "filtering_groups.0.rule_lists" | .fg0Sb => "filtering_groups.0.safe_browsing"
+  | .sg => "server_groups" | .sgDdr => "server_groups.0.ddr" | .sgSrvs => "server_groups.0.servers"
+  | .sgTls => "server_groups.0.tls"
+  | .ddrDev => "server_groups.0.ddr.device_records"
+  | .ddrDevHttps => "server_groups.0.ddr.device_records.https_port"
+  | .ddrPub => "server_groups.0.ddr.public_records"
+  | .ddrPubHttps => "server_groups.0.ddr.public_records.https_port"
+  | .cc => "connectivity_check" | .ac => "access"
+  | .ilList => "interface_listeners.list"
+  | .ilPort0 => "interface_listeners.list.eth0_plain_dns.port"
+  | .ilPort1 => "interface_listeners.list.eth0_plain_dns_secondary.port"
 
 /-- What the error message says about the property. -/
-inductive Kind | notPositive | negative | range | enum | noValue | cross
+inductive Kind | notPositive | negative | range | enum | noValue | cross | empty | allZero
   deriving DecidableEq, Repr
 
 def Kind.name : Kind → String
   | .notPositive => "notpositive" | .negative => "negative" | .range => "range"
   | .enum => "enum" | .noValue => "novalue" | .cross => "cross"
+  | .empty => "empty" | .allZero => "allzero"
 
 abbrev Err := F × Kind
 
@@ -200,6 +226,33 @@ structure Config where
   pNw : Bool := true
   nwSnd : Int := 0
   nwRcv : Int := 0
+  -- second wave
+  pUpSrv : Bool := true          -- `upstream.servers` is a non-empty list
+  pFbSrv : Bool := true
+  hcTmpl : String := "${RANDOM}.neverssl.com"
+  pQl : Bool := true
+  pQlFile : Bool := true
+  ckLoc : String := "ams"
+  ckName : String := "eu-1.dns.example.com"
+  pFg : Bool := true             -- `filtering_groups` is a non-empty list
+  pFg0Par : Bool := true
+  pFg0Rl : Bool := true
+  pFg0Sb : Bool := true
+  pSg : Bool := true             -- `server_groups` is a non-empty list
+  pDdr : Bool := true
+  pSrvs : Bool := true
+  pTls : Bool := true
+  devHttps : Int := 443
+  devQuic : Int := 853
+  devTls : Int := 853
+  pubHttps : Int := 443
+  pubQuic : Int := 853
+  pubTls : Int := 853
+  pCc : Bool := true
+  pAc : Bool := true
+  pIlList : Bool := true
+  ilPort0 : Int := 53
+  ilPort1 : Int := 5353
 
 /-- The distributed example. -/
 def dist : Config := {}
@@ -231,6 +284,9 @@ def maxBuf : Int := 2147483647
 def consulMin : Int := 10000000000
 def consulMax : Int := 86400000000000
 def redisMin : Int := 1000000
+
+/-- An empty or absent list (`len(x) == 0`) is reported as `empty value`. -/
+def missing (present : Bool) (f : F) : List Err := if present then [] else [(f, .empty)]
 
 def valAllow (c : Config) : List Err :=
   sect c.pAl .rlAl
@@ -269,11 +325,12 @@ def valRatelimit (legacy : Bool) (c : Config) : List Err :=
 
 def valUpstream (c : Config) : List Err :=
   sect c.pUp .up
-    [ pos .upS0 c.upS0, pos .upS1 c.upS1,
-      sect c.pFb .upFb [ pos .upF0 c.upF0, pos .upF1 c.upF1 ],
+    [ missing c.pUpSrv .upSrv, pos .upS0 c.upS0, pos .upS1 c.upS1,
+      sect c.pFb .upFb [ missing c.pFbSrv .upFbSrv, pos .upF0 c.upF0, pos .upF1 c.upF1 ],
       sect c.pHc .upHc
         [ if c.hcEnabled then
-            firstOf [ pos .upHcIvl c.hcIvl, pos .upHcTimeout c.hcTimeout, pos .upHcBackoff c.hcBackoff ]
+            firstOf [ (if c.hcTmpl = "" then [(.upHcTmpl, .empty)] else []),
+                      pos .upHcIvl c.hcIvl, pos .upHcTimeout c.hcTimeout, pos .upHcBackoff c.hcBackoff ]
           else [] ] ]
 
 def valCache (legacy : Bool) (c : Config) : List Err :=
@@ -310,7 +367,36 @@ def valKv (c : Config) : List Err :=
         (if c.kvTtl < redisMin then [(.ckKvTtl, .range)] else [])
       else [(.ckKvType, .enum)] ]
 
-def valCheck (c : Config) : List Err := sect c.pCk .ck [ valKv c ]
+def valCheck (c : Config) : List Err :=
+  sect c.pCk .ck
+    [ (if c.ckLoc = "" then [(.ckLoc, .empty)] else []),
+      (if c.ckName = "" then [(.ckName, .empty)] else []),
+      valKv c ]
+
+def valQueryLog (c : Config) : List Err := sect c.pQl .ql [ sect c.pQlFile .qlFile [] ]
+
+/-- `filteringGroups.validate` as far as the first group's sub-sections go. -/
+def valFltGroups (c : Config) : List Err :=
+  firstOf [ missing c.pFg .fg,
+            sect c.pFg0Par .fg0Par [], sect c.pFg0Rl .fg0Rl [], sect c.pFg0Sb .fg0Sb [] ]
+
+/-- `ddrRecord.validatePorts`. -/
+def valPorts (fRec fHttps : F) (https quic tls : Int) : List Err :=
+  if https ≠ 0 ∧ https = tls then [(fHttps, .cross)]
+  else if https = 0 ∧ quic = 0 ∧ tls = 0 then [(fRec, .allZero)]
+  else []
+
+/-- `serverGroups.validate` for the single distributed group: DDR records, the server list, TLS. -/
+def valSrvGroups (c : Config) : List Err :=
+  firstOf [ missing c.pSg .sg,
+            sect c.pDdr .sgDdr
+              [ valPorts .ddrDev .ddrDevHttps c.devHttps c.devQuic c.devTls,
+                valPorts .ddrPub .ddrPubHttps c.pubHttps c.pubQuic c.pubTls ],
+            missing c.pSrvs .sgSrvs,
+            sect c.pTls .sgTls [] ]
+
+def valConnCheck (c : Config) : List Err := sect c.pCc .cc []
+def valAccess (c : Config) : List Err := sect c.pAc .ac []
 
 /-- A missing `web` section is accepted. -/
 def valWeb (c : Config) : List Err := if c.pWeb then pos .webTimeout c.webTimeout else []
@@ -329,7 +415,12 @@ def valFilters (legacy : Bool) (c : Config) : List Err :=
   else [(.fl, .noValue)]
 
 /-- A missing `interface_listeners` section is accepted. -/
-def valIface (c : Config) : List Err := if c.pIl then pos .ilBuf c.ilBuf else []
+def valIface (c : Config) : List Err :=
+  if c.pIl then
+    firstOf [ pos .ilBuf c.ilBuf, missing c.pIlList .ilList,
+              (if c.ilPort0 = 0 then [(.ilPort0, .empty)] else []),
+              (if c.ilPort1 = 0 then [(.ilPort1, .empty)] else []) ]
+  else []
 
 def valNetwork (c : Config) : List Err :=
   sect c.pNw .nw [ atMost .nwSnd c.nwSnd maxBuf, atMost .nwRcv c.nwRcv maxBuf ]
@@ -338,10 +429,11 @@ def valNetwork (c : Config) : List Err :=
 def validate (legacy : Bool) (c : Config) : List Err :=
   firstOf
     [ valRatelimit legacy c, valUpstream c, valCache legacy c, valDnsdb c, valDns c, valBackend c,
-      valGeo c, valCheck c, valWeb c,
+      valQueryLog c, valGeo c, valCheck c, valWeb c,
       valSb c.pSb .sb .sbSize .sbTtl .sbRefresh .sbTimeout c.sbSize c.sbTtl c.sbRefresh c.sbTimeout,
       valSb c.pAb .ab .abSize .abTtl .abRefresh .abTimeout c.abSize c.abTtl c.abRefresh c.abTimeout,
-      valFilters legacy c, valIface c, valNetwork c ]
+      valFilters legacy c, valFltGroups c, valSrvGroups c, valConnCheck c, valIface c, valNetwork c,
+      valAccess c ]
 
 /-! ## Documented constraints (the specification side) -/
 
@@ -393,6 +485,20 @@ def violates (c : Config) : F → Bool
   | .flRlcSize => c.rlcSize ≤ 0
   | .ilBuf => c.pIl && c.ilBuf ≤ 0
   | .nwSnd => c.nwSnd > maxBuf | .nwRcv => c.nwRcv > maxBuf
+  | .upSrv => !c.pUpSrv | .upFbSrv => !c.pFbSrv
+  | .upHcTmpl => c.hcEnabled && c.hcTmpl = ""
+  | .ql => !c.pQl | .qlFile => !c.pQlFile
+  | .ckLoc => c.ckLoc = "" | .ckName => c.ckName = ""
+  | .fg => !c.pFg | .fg0Par => !c.pFg0Par | .fg0Rl => !c.pFg0Rl | .fg0Sb => !c.pFg0Sb
+  | .sg => !c.pSg | .sgDdr => !c.pDdr | .sgSrvs => !c.pSrvs | .sgTls => !c.pTls
+  | .ddrDev => c.devHttps = 0 && c.devQuic = 0 && c.devTls = 0
+  | .ddrDevHttps => c.devHttps ≠ 0 && c.devHttps = c.devTls
+  | .ddrPub => c.pubHttps = 0 && c.pubQuic = 0 && c.pubTls = 0
+  | .ddrPubHttps => c.pubHttps ≠ 0 && c.pubHttps = c.pubTls
+  | .cc => !c.pCc | .ac => !c.pAc
+  | .ilList => c.pIl && !c.pIlList
+  | .ilPort0 => c.pIl && c.ilPort0 = 0
+  | .ilPort1 => c.pIl && c.ilPort1 = 0
 
 /-! ## The consumers: constructors run at start-up and the per-query code -/
 
@@ -506,15 +612,20 @@ structure Safe (c : Config) : Prop where
   flTimes : 0 < c.flRespTtl ∧ 0 < c.flRefresh ∧ 0 < c.flRefreshTo ∧ 0 < c.flIndexTo ∧ 0 < c.flRuleTo
   il : c.pIl = true → 0 < c.ilBuf
   nw : c.nwSnd ≤ maxBuf ∧ c.nwRcv ≤ maxBuf
+  ilPorts : c.pIl = true → c.ilPort0 ≠ 0 ∧ c.ilPort1 ≠ 0
+  ddrDev : ¬ (c.devHttps = 0 ∧ c.devQuic = 0 ∧ c.devTls = 0) ∧ (c.devHttps ≠ 0 → c.devHttps ≠ c.devTls)
+  ddrPub : ¬ (c.pubHttps = 0 ∧ c.pubQuic = 0 ∧ c.pubTls = 0) ∧ (c.pubHttps ≠ 0 → c.pubHttps ≠ c.pubTls)
+  hcTmpl : c.hcEnabled = true → c.hcTmpl ≠ ""
 
 /-! ## Parsing stage (YAML → typed value) -/
 
 /-- Go type of a scalar field. -/
-inductive Ty | uint | int | dur | size deriving DecidableEq, Repr
+inductive Ty | uint | int | dur | size | u16 deriving DecidableEq, Repr
 
 /-- Values outside the Go type are rejected by the YAML decoder before validation. -/
 def Ty.inRange : Ty → Int → Bool
   | .uint, v | .size, v => 0 ≤ v && v ≤ 18446744073709551615
   | .int, v | .dur, v => -9223372036854775808 ≤ v && v ≤ 9223372036854775807
+  | .u16, v => 0 ≤ v && v ≤ 65535
 
 end Agd.Config
